@@ -18,12 +18,10 @@ def run(ctx):
     attach(r1, dd, prefixes=['del:'])
     eff = qsend.effect_sites(db)
     attach(r1, eff, only={'effect:markdone:open_write:chan', 'effect:markdone-writes-one-byte-D-at-pos'})
-    # who calls markdone
-    callers = set()
-    for fn in prog.functions():
-        if fn.unit == 'qmail-send.c' and fn.calls('markdone'):
-            callers.add(fn.name)
-    r1.check(callers == {'del_dochan'}, 'markdone-called-only-from-del_dochan', 'qmail-send.c', 'markdone() is called from %s' % sorted(callers))
+    # who can reach markdone
+    from qv.lib import only_reached_through
+    okm, direct = only_reached_through(prog, 'qmail-send.c', 'markdone', {'del_dochan'})
+    r1.check(okm, 'markdone-reached-only-through-del_dochan', 'qmail-send.c', 'markdone() is called from %s, not all of which are reached only through del_dochan' % direct)
     # read()==0 / -1: no state change
     f = prog.fn('del_dochan', 'qmail-send.c')
     rd = f.calls('read')
